@@ -46,6 +46,9 @@ NsDel(p) == /\ Rec([op |-> "nsdel", p |-> p])
                     IN SetNs(SubSeq(ns, 1, k - 1) \o SubSeq(ns, k + 1, Len(ns)))
                ELSE UNCHANGED <<ns, sels>>
             /\ UNCHANGED nextid
+\* the whole text of the sheet is assigned and REJECTED (it uses an undeclared prefix): nothing changes - in particular the mapping
+\* is still the view of the @namespace rules
+BadText == Rec([op |-> "badtext"]) /\ UNCHANGED <<ns, sels, nextid>>
 DeleteNs(k) == /\ k <= Len(ns) /\ Rec([op |-> "deletens", k |-> k])
                /\ IF RemovableAt(k) THEN SetNs(SubSeq(ns, 1, k - 1) \o SubSeq(ns, k + 1, Len(ns))) ELSE UNCHANGED <<ns, sels>>
                /\ UNCHANGED nextid
@@ -72,6 +75,7 @@ Next == \/ \E p \in NsPrefixes, u \in Uris : (\E h \in {"text", "object"} : AddN
         \/ \E k \in 1..MaxNs : DeleteNs(k)
         \/ \E f \in Forms : (\E h \in {"rule", "object", "media", "mediatext"} : AddSel(f, h)) \/ (\E j \in 1..MaxSels : SetSelText(j, f))
         \/ \E j \in 1..MaxSels : Detach(j) \/ Attach(j)
+        \/ BadText
 Spec == Init /\ [][Next]_vars
 View == <<ns, sels>>
 
